@@ -143,6 +143,14 @@ impl<const ROLE: u8> Drop for Pd<ROLE> {
         if PANIC_ROLE.with(|c| c.get()) == ROLE as i8 { PANIC_ROLE.with(|c| c.set(-1)); panic!("scripted destructor panic"); }
     }
 }
+/// a SUB-WORD payload with drop glue (size 1, align 1: `ArcInner<Ps>` has tail padding)
+struct Ps<const ROLE: u8>(u8);
+impl<const ROLE: u8> Drop for Ps<ROLE> {
+    fn drop(&mut self) {
+        bump::<ROLE>();
+        if PANIC_ROLE.with(|c| c.get()) == ROLE as i8 { PANIC_ROLE.with(|c| c.set(-1)); panic!("scripted destructor panic"); }
+    }
+}
 trait Dy { fn v(&self) -> u32; }
 impl<const ROLE: u8> Dy for Pd<ROLE> { fn v(&self) -> u32 { self.0 } }
 
@@ -156,7 +164,8 @@ fn run_dp(path: &str, which: &str) -> String {
     // build the handle (recorded: the Arc block is the only allocation with align >= 8 made here)
     enum Hd { A(Arc<E>), O(OffsetArc<E>), U1(ArcUnion<E, H>), U2(ArcUnion<H, E>), Q(UniqueArc<E>), D(Arc<dyn Dy>),
               HS(Arc<HeaderSlice<H, [E]>>), SL(Arc<[E]>), TH(ThinArc<H, E>), R(*const E),
-              HSU(UniqueArc<HeaderSlice<H, [MaybeUninit<E>]>>), MU(Arc<MaybeUninit<E>>) }
+              HSU(UniqueArc<HeaderSlice<H, [MaybeUninit<E>]>>), MU(Arc<MaybeUninit<E>>),
+              MUS(Arc<MaybeUninit<Ps<1>>>), AS(Arc<Ps<1>>), QMS(UniqueArc<MaybeUninit<[u8; 3]>>) }
     let mk_vec = || vec![Pd::<1>(1, 1), Pd::<1>(2, 2), Pd::<1>(3, 3)];
     let h = match path {
         "arc" => Hd::A(Arc::new(Pd(1, 1))),
@@ -179,6 +188,10 @@ fn run_dp(path: &str, which: &str) -> String {
             Hd::HS(unsafe { u.assume_init_slice_with_header() }.shareable())
         }
         "mu_drop" => { let mut u = UniqueArc::<E>::new_uninit(); u.write(Pd(1, 1)); Hd::MU(u.shareable()) }
+        // sub-word payloads through UniqueArc::new_uninit (tail padding in the block)
+        "mus_drop" => { let mut u = UniqueArc::<Ps<1>>::new_uninit(); u.write(Ps(1)); Hd::MUS(u.shareable()) }
+        "mus_init" => { let mut u = UniqueArc::<Ps<1>>::new_uninit(); u.write(Ps(1)); Hd::AS(unsafe { UniqueArc::assume_init(u) }.shareable()) }
+        "mu3_drop" => { let mut u = UniqueArc::<[u8; 3]>::new_uninit(); u.write([1, 2, 3]); Hd::QMS(u) }
         "mu_init" => { let mut u = UniqueArc::<E>::new_uninit(); u.write(Pd(1, 1)); Hd::A(unsafe { UniqueArc::assume_init(u) }.shareable()) }
         _ => return "st=badpath".to_string(),
     };
@@ -187,7 +200,7 @@ fn run_dp(path: &str, which: &str) -> String {
         Hd::R(p) => drop(unsafe { Arc::from_raw(p) }),
         Hd::A(x) => drop(x), Hd::O(x) => drop(x), Hd::U1(x) => drop(x), Hd::U2(x) => drop(x), Hd::Q(x) => drop(x),
         Hd::D(x) => drop(x), Hd::HS(x) => drop(x), Hd::SL(x) => drop(x), Hd::TH(x) => drop(x),
-        Hd::HSU(x) => drop(x), Hd::MU(x) => drop(x),
+        Hd::HSU(x) => drop(x), Hd::MU(x) => drop(x), Hd::MUS(x) => drop(x), Hd::AS(x) => drop(x), Hd::QMS(x) => drop(x),
     }));
     PANIC_ROLE.with(|c| c.set(-1));
     set_recording(false);
